@@ -1,6 +1,8 @@
 """C04 - modules and hierarchy mirror the scanned directory tree, named from root_path."""
 from . import c02
 
+USES_GENERATED = ("C04",)
+
 
 def run(ctx):
     return c02.run(ctx, aspect="C04")
